@@ -158,12 +158,15 @@ class Z(Seg):
 
 
 class O(Seg):
-    """opaque symbolic bytes: content is the function fn: index -> byte"""
-    __slots__ = ("id", "n", "fn")
+    """opaque symbolic bytes: content is the function fn: index -> byte.  `params`: index terms
+    the segment is parametrised by (blob of component j): two segments with the same name and
+    provably equal parameters are the same bytes"""
+    __slots__ = ("id", "n", "fn", "params")
 
-    def __init__(self, id, n, fn=None):
+    def __init__(self, id, n, fn=None, params=()):
         self.id = id
         self.n = n
+        self.params = tuple(params)
         self.fn = fn if fn is not None else bytefn("B|" + id)
 
     @property
@@ -171,6 +174,8 @@ class O(Seg):
         return self.n
 
     def key(self):
+        if self.params:
+            return "O:%s{%s}" % (self.id, ",".join(arg_key(p) for p in self.params))
         return "O:%s" % self.id
 
     def byte(self, j):
@@ -178,6 +183,10 @@ class O(Seg):
 
     def sub(self, lo, hi):
         return Sl(self, lo, hi)
+
+    def same(self, o):
+        return isinstance(o, O) and self.id == o.id and len(self.params) == len(o.params) and \
+            all(args_provably_equal(p, q) for p, q in zip(self.params, o.params))
 
 
 class F(Seg):
@@ -236,20 +245,38 @@ class BC(Seg):
     SUM|sig(lo, hi), keyed by the *length function*, with its defining facts instantiated where used:
       hi <= lo => SUM = 0;   SUM >= 0;   lo < hi => SUM(lo,hi) = elem_len(lo) + SUM(lo+1,hi)
       lo < hi => SUM(lo,hi) = SUM(lo,hi-1) + elem_len(hi-1);   lo<=m<=hi => SUM(lo,hi)=SUM(lo,m)+SUM(m,hi)"""
-    __slots__ = ("name", "lo", "hi", "elem", "elem_len", "_sum", "const", "params")
+    __slots__ = ("name", "lo", "hi", "elem", "elem_len", "_sum", "const", "params", "iparams", "min_len")
     J = z3.Int("J!bc")
 
-    def __init__(self, name, lo, hi, elem, elem_len, params=()):
+    def __init__(self, name, lo, hi, elem, elem_len, params=(), min_len=0):
         self.name = name
+        self.min_len = min_len        # every element has at least this many bytes (stated by the contract)
         self.params = tuple(params)
         self.lo = _simp(_t(lo))
         self.hi = _simp(_t(hi))
         self.elem = elem
         self.elem_len = elem_len
         lj = _simp(_t(elem_len(BC.J)))
+        # the length function depends on the integer parameters: abstract them so that the sum is
+        # one uninterpreted function SUM(params.., lo, hi) for all parameter values
+        self.iparams = []
+        subs = []
+        for k, p in enumerate(self.params):
+            if isinstance(p, (SInt, int)) or z3.is_arith(p):
+                pt = _simp(_t(p))
+                if z3.is_int_value(pt):
+                    continue
+                ph = z3.Int("P%d!bc" % (len(self.iparams) + 1))
+                if z3.eq(z3.substitute(lj, (pt, ph)), lj):
+                    continue            # the element length does not depend on this parameter
+                self.iparams.append(pt)
+                subs.append((pt, ph))
+        lj_abs = _simp(z3.substitute(lj, *subs)) if subs else lj
         self.const = _cval(lj)
-        sig = lj.sexpr()
-        self._sum = sumfn(sig)
+        sig = "%d|%s" % (len(self.iparams), lj_abs.sexpr())
+        f = sumfn(sig, len(self.iparams))
+        ip = list(self.iparams)
+        self._sum = lambda a, b, f=f, ip=ip: f(*(ip + [a, b]))
         self._facts(self.lo, self.hi)
 
     def _facts(self, lo, hi):
@@ -264,8 +291,12 @@ class BC(Seg):
             lo1 = _simp(lo + 1)
             el_last = _t(self.elem_len(hi1))
             el_first = _t(self.elem_len(lo))
-            c.fact(z3.Implies(lo < hi, z3.And(S(lo, hi) == S(lo, hi1) + el_last, el_last >= 0, S(lo, hi1) >= 0)))
-            c.fact(z3.Implies(lo < hi, z3.And(S(lo, hi) == el_first + S(lo1, hi), el_first >= 0, S(lo1, hi) >= 0)))
+            m = self.min_len
+            c.fact(z3.Implies(lo < hi, z3.And(S(lo, hi) == S(lo, hi1) + el_last, el_last >= m, S(lo, hi1) >= 0)))
+            c.fact(z3.Implies(lo < hi, z3.And(S(lo, hi) == el_first + S(lo1, hi), el_first >= m, S(lo1, hi) >= 0)))
+            if m:
+                # lemma (induction on hi - lo): a sum of hi-lo elements of >= m bytes each
+                c.fact(z3.Implies(lo < hi, S(lo, hi) >= m * (hi - lo)))
 
     @property
     def len(self):
@@ -286,7 +317,7 @@ class BC(Seg):
         return None
 
     def with_bounds(self, lo, hi):
-        return BC(self.name, lo, hi, self.elem, self.elem_len, self.params)
+        return BC(self.name, lo, hi, self.elem, self.elem_len, self.params, self.min_len)
 
     def first(self):
         """(elem(lo) segments, BC(lo+1, hi)); caller guarantees lo < hi"""
@@ -295,7 +326,7 @@ class BC(Seg):
         el = _t(self.elem_len(self.lo))
         c.fact(el >= 0)
         c.fact(z3.Implies(self.lo < self.hi, self._sum(self.lo, self.hi) == el + self._sum(lo1, self.hi)))
-        head = Rope.of(self.elem(SInt(self.lo)))
+        head = Rope.of(self.elem(SInt(_symbolic_index(self.lo))))
         c.fact(head.length_term() == el)
         return head.segs, self.with_bounds(lo1, self.hi)
 
@@ -306,7 +337,7 @@ class BC(Seg):
         el = _t(self.elem_len(hi1))
         c.fact(el >= 0)
         c.fact(z3.Implies(self.lo < self.hi, self._sum(self.lo, self.hi) == self._sum(self.lo, hi1) + el))
-        tail = Rope.of(self.elem(SInt(hi1)))
+        tail = Rope.of(self.elem(SInt(_symbolic_index(hi1))))
         c.fact(tail.length_term() == el)
         return self.with_bounds(self.lo, hi1), tail.segs
 
@@ -321,16 +352,28 @@ class BC(Seg):
 SUMFN = {}
 
 
-def sumfn(sig):
+def _symbolic_index(t):
+    """an index term that is a numeral is replaced by a fresh symbol equal to it, so that everything
+    derived from the element keeps the index as a *parameter* (uniform treatment of all indices)"""
+    t = _simp(t)
+    if z3.is_int_value(t):
+        c = cur()
+        e = z3.Int(c.fresh("e"))
+        c.fact(e == t)
+        return e
+    return t
+
+
+def sumfn(sig, nparams=0):
     f = SUMFN.get(sig)
     if f is None:
-        f = z3.Function("SUM|%d" % len(SUMFN), z3.IntSort(), z3.IntSort(), z3.IntSort())
+        f = z3.Function("SUM|%d" % len(SUMFN), *([z3.IntSort()] * (nparams + 3)))
         SUMFN[sig] = f
     return f
 
 
-def bigcat(name, lo, hi, elem, elem_len, params=()):
-    return Rope([BC(name, lo, hi, elem, elem_len, params)])
+def bigcat(name, lo, hi, elem, elem_len, params=(), min_len=0):
+    return Rope([BC(name, lo, hi, elem, elem_len, params, min_len)])
 
 
 def arg_key(a):
@@ -433,7 +476,19 @@ class Rope:
                 off = end
                 continue
             if isinstance(s, BC):
-                # strictly inside a BigConcat: unfold its first element and go on
+                # strictly inside a BigConcat: first try the element boundaries the contract hints at
+                for g in c.aux.get("bc_hints", []):
+                    gt = _simp(_t(g))
+                    if _k(gt) == _k(s.lo):
+                        continue
+                    if c.valid(z3.And(s.lo <= gt, gt <= s.hi)) and c.branch(s.lo < gt):
+                        s.split_fact(gt)
+                        if c.valid(off + s._sum(s.lo, gt) <= pos):
+                            r2 = Rope([], self.text)
+                            r2.segs = segs[:i] + [s.with_bounds(s.lo, gt), s.with_bounds(gt, s.hi)] + segs[i + 1:]
+                            r2._unfolds = self._unfolds
+                            return r2.split_at(pos)
+                # otherwise unfold its first element and go on
                 head, rest = s.first()
                 r2 = Rope(segs[:i] + list(head) + [rest] + segs[i + 1:], self.text)
                 depth = getattr(self, "_unfolds", 0) + 1
@@ -856,6 +911,8 @@ def _seg_provably_eq(a, b):
         return c.valid(a.t == int.from_bytes(b.b, "big"))
     if isinstance(b, BE) and isinstance(a, K) and b.w == len(a.b):
         return c.valid(b.t == int.from_bytes(a.b, "big"))
+    if isinstance(a, O) and isinstance(b, O):
+        return a.same(b)
     if isinstance(a, Sl) and isinstance(b, Sl):
         return _seg_provably_eq(a.base, b.base) and c.valid(z3.And(a.lo == b.lo, a.hi == b.hi))
     if isinstance(a, F) and isinstance(b, F) and a.f == b.f and len(a.args) == len(b.args):
@@ -1053,7 +1110,9 @@ def _atom_eq(a, b):
         return _simp(_seg_int(a, L) == _seg_int(b, L))
     if L is not None and L <= 256 and _bytable(a) and _bytable(b):
         return _simp(z3.And(*[a.byte(z3.IntVal(j)) == b.byte(z3.IntVal(j)) for j in range(L)]))
-    if isinstance(a, Sl) and isinstance(b, Sl) and a.base.key() == b.base.key():
+    if isinstance(a, O) and isinstance(b, O) and a.params and a.same(b):
+        return True
+    if isinstance(a, Sl) and isinstance(b, Sl) and (a.base.key() == b.base.key() or _seg_provably_eq(a.base, b.base)):
         c = cur()
         if c.valid(a.lo == b.lo):
             return True
